@@ -159,7 +159,7 @@ func (r *Run) handle(f *Family, res Result, col *Collector) {
 		col.req[tid] = res.Req
 	}
 	if !v.OK && !v.Out {
-		r.Fail(Candidate{Family: f.Name, Class: v.Class, Sig: v.Sig, Case: json.RawMessage(jsonOrString(res.Req)), Detail: v.Detail})
+		r.Fail(Candidate{Family: f.Name, Class: v.Class, Sig: v.Sig, Case: json.RawMessage(jsonOrString(res.Req)), Detail: v.Detail, Hist: res.Hist})
 	}
 }
 
@@ -408,4 +408,30 @@ func SubmitCollect(r *Run, fam string, kind byte, n int, col *Collector) {
 	r.mu.Lock()
 	r.Extra["crash_monitored"] = toInt(r.Extra["crash_monitored"]) + int(pool.Executed)
 	r.mu.Unlock()
+}
+
+// ReproduceWithHistory replays the requests the original executor had run before the
+// candidate's request, then the request itself, in one fresh executor.
+func ReproduceWithHistory(c Candidate) (bool, string) {
+	var req string
+	if err := json.Unmarshal(c.Case, &req); err != nil {
+		return false, "not a plain request"
+	}
+	var last *Result
+	p := NewPool(c.Family, 1, func(res Result) { r := res; last = &r })
+	p.Timeout = 120 * time.Second
+	for _, h := range c.Hist {
+		p.Submit(h)
+	}
+	p.Submit([]byte(req))
+	p.Close()
+	if last == nil || string(last.Req) != req {
+		return false, "history replay did not reach the request"
+	}
+	if last.Crash != "" {
+		return true, last.Crash
+	}
+	var v Verdict
+	json.Unmarshal(last.Resp, &v)
+	return v.Panic != "" || (!v.OK && !v.Out), v.Detail
 }
